@@ -173,6 +173,63 @@ def _samples(w: _World):
     min_instances=24,
 )
 def gen_blocks(repo, res):
+    _run_block_samples(repo, res, _samples)
+
+
+def _sweep_samples(w: "_World"):
+    """Combinatorial block sets for the thorough tier: every pair of table kinds for test and trial function on every
+    integration entity, with and without blocking / offsets / permutation, plus rank-1 and diagonal versions."""
+    import itertools
+
+    T = w.table
+    out = []
+    kinds = [("varying", {}), ("piecewise", {}), ("uniform", {}), ("fixed", {}), ("ones", {})]
+    n = 0
+    for (etype, itype, restrs) in (("cell", "cell", [(None, None)]), ("facet", "exterior_facet", [(None, None)]),
+                                   ("facet", "interior_facet", [("+", "+"), ("+", "-"), ("-", "+"), ("-", "-")]), ("vertex", "vertex", [(None, None)])):
+        nent = 1 if etype == "cell" else 3
+        for (k0, _a), (k1, _b) in itertools.product(kinds, kinds):
+            for bs, permuted in ((1, False), (2, False), (1, True)):
+                if permuted and itype != "interior_facet":
+                    continue
+                for r0, r1 in restrs:
+                    def mk(kind, name, restr, comp):
+                        nq = 1 if kind in ("piecewise", "fixed", "ones") else NQ
+                        ne = 1 if kind in ("uniform", "fixed", "ones") or etype == "cell" else nent
+                        ndof = 1 if kind == "ones" else 3
+                        off = (3 * bs if restr == "-" else 0) + (comp if bs > 1 else 0)
+                        return T(name, (2 if (permuted and kind not in ("ones",)) else 1, ne, nq, ndof), offset=off, bs=bs, ttype=kind,
+                                 permuted=permuted and kind != "ones")
+                    t0, t1 = mk(k0, f"FA{n}", r0, 0), mk(k1, f"FB{n}", r1, 1 if bs > 1 else 0)
+                    n += 1
+                    size = 3 * bs * (2 if itype == "interior_facet" else 1)
+                    bm = (tuple(range(t0.f["values"].f["shape"][3])), tuple(range(t1.f["values"].f["shape"][3])))
+                    out.append((f"sweep {itype} {k0}x{k1} bs={bs} perm={permuted} {r0}{r1}", etype, itype, (size, size), [("f0", [(t0, r0), (t1, r1)])], bm, False))
+        for (k0, _a) in kinds:
+            t0 = T(f"FC{n}", (1, 1 if (k0 in ("uniform", "fixed", "ones") or etype == "cell") else nent, 1 if k0 in ("piecewise", "fixed", "ones") else NQ, 1 if k0 == "ones" else 3),
+                   ttype=k0)
+            n += 1
+            out.append((f"sweep {itype} rank 1 {k0}", etype, itype, (3,), [("f0", [(t0, None)]), ("f1", [(t0, None)])], (tuple(range(t0.f["values"].f["shape"][3])),), False))
+            if k0 != "ones":
+                out.append((f"sweep {itype} diagonal {k0}", etype, itype, (3,), [("f0", [(t0, None), (t0, None)])], (tuple(range(3)), tuple(range(3))), True))
+    return out
+
+
+@rule(
+    "GEN-BLOCKS-SWEEP",
+    ["C01", "C02", "C07", "C08", "C10"],
+    "thorough tier of GEN-BLOCKS: the same interpretation and comparison on a combinatorial family of block sets - every "
+    "pair of table kinds (varying, piecewise, uniform, fixed, ones) for test and trial function on cells, exterior facets, "
+    "interior facets (all four restriction pairs, with and without permuted tables), vertices; unit and blocked strides; rank "
+    "1 and diagonal variants - each before and after optimizer.optimize",
+    min_instances=400,
+    tier="thorough",
+)
+def gen_blocks_sweep(repo, res):
+    _run_block_samples(repo, res, _sweep_samples)
+
+
+def _run_block_samples(repo, res, sample_fn):
     w = _World(repo)
     m = repo.mod(IG)
     g = m.func("IntegralGenerator.generate_block_parts")
@@ -180,7 +237,7 @@ def gen_blocks(repo, res):
     res.functions.update({g.key, opt.key, m.func("IntegralGenerator.get_arg_factors").key,
                           repo.mod("ffcx.codegeneration.access").func("FFCXBackendAccess.table_access").key,
                           repo.mod("ffcx.codegeneration.symbols").func("FFCXBackendSymbols.entity").key})
-    for label, etype, itype, shape, terms, blockmap, diag in _samples(w):
+    for label, etype, itype, shape, terms, blockmap, diag in sample_fn(w):
         key = f"{g.key}:{label}"
         res.ob(key)
         gen, bl_all = w.setup(etype, itype, shape, terms, "TensorPart.diagonal" if diag else "TensorPart.full")
